@@ -10,10 +10,15 @@
   UBJSON ENCODER (namespace `SF.PropsUbj.C17`): every document (any tree, also with
   extended events) restores the length stack; after ANY history of documents ANY probe stream
   yields the bytes, result and stack of a new encoder.
+
+  JSON ENCODER (namespace `SF.PropsJson.C17`): every supported document restores both bool
+  stacks (`first`, `inArray`) exactly at top level; after any history of documents the probe
+  writes the bytes a new encoder writes and ends with the same stacks.
 -/
 import SF.Proofs.CborEnc
 import SF.Props.C05
 import SF.Proofs.UbjEncTop
+import SF.Proofs.JsonEncTop
 namespace SF.Props.C17
 open SF SF.Cbor SF.Cbor.Cst
 
@@ -119,3 +124,33 @@ theorem ubj_encoder_reuse_ext (hist : List XTree) (hh : XTree.leavesOkList hist 
   SF.Props.UbjEnc.ubj_encoder_reuse_ext hist hh probe
 
 end SF.PropsUbj.C17
+
+/-! ## JSON encoder (SF/Json/Enc.lean; proofs SF/Proofs/JsonEnc*.lean) -/
+
+namespace SF.PropsJson.C17
+open SF SF.Json SF.Json.Enc SF.Json.Float ETree
+open SF.Props.JsonEnc
+
+/-- a complete supported document at top level leaves the encoder exactly as it found it, apart
+from the bytes written -/
+theorem json_encoder_doc_idle (o : Enc) (t : ETree) (hs : supported o t = true) (s : Enc) (ho : Opts s o)
+    (hf : s.w.failFrom = none) (ha : s.inArray.current = false) :
+    ∃ w', execEvs s t.events = ({ s with w := w' }, .ok) ∧ w'.failFrom = none ∧
+      w'.out = s.w.out ++ text o t :=
+  SF.Props.JsonEnc.json_encoder_doc_idle o t hs s ho hf ha
+
+/-- C17 for the JSON encoder: ANY history of supported documents, then a probe document: same
+bytes and same stacks as on an encoder that never saw the history -/
+theorem json_encoder_reuse (o : Enc) (hist : List ETree) (probe : ETree)
+    (hh : ∀ t ∈ hist, supported o t = true) (hp : supported o probe = true)
+    (s0 : Enc) (ho : Opts s0 o) (hf : s0.w.failFrom = none) (ha : s0.inArray.current = false) :
+    ∃ w1, execEvs s0 (eventsList hist) = ({ s0 with w := w1 }, .ok) ∧
+      w1.out = s0.w.out ++ (hist.map (text o)).flatten ∧
+      (execEvs { s0 with w := w1 } probe.events).2 = .ok ∧
+      (execEvs { s0 with w := w1 } probe.events).1.w.out = w1.out ++ text o probe ∧
+      (execEvs s0 probe.events).1.w.out = s0.w.out ++ text o probe ∧
+      (execEvs { s0 with w := w1 } probe.events).1.first = (execEvs s0 probe.events).1.first ∧
+      (execEvs { s0 with w := w1 } probe.events).1.inArray = (execEvs s0 probe.events).1.inArray :=
+  SF.Props.JsonEnc.json_encoder_reuse o hist probe hh hp s0 ho hf ha
+
+end SF.PropsJson.C17
